@@ -107,6 +107,13 @@ def near_capacity_cases(chk):
         g.emit({'op': 'newc', 'out': c, 'name': g.name(), 'max': {'v': '0.2', 'p': 'm', 'b': 'L'}, 'init': [[liq, {'v': '199', 'p': 'u', 'b': 'L'}]]})
         g.emit({'op': 'transfer', 'src': {'c': a}, 'dst': {'c': c}, 'q': {'v': '1.8', 'p': 'u', 'b': 'L'}, 'osrc': g.fresh(), 'odst': g.fresh()})
         out.append(g)
+    # very large volumes (a reservoir of megalitres dispensed into basins): read back in kL and ML under every configuration
+    g = gen.Gen(random.Random(chk.seed * 100003 + 189000), nsubs=9)
+    a, b = g.fresh(), g.fresh()
+    g.emit({'op': 'newc', 'out': a, 'name': g.name(), 'init': [[1, {'v': '500', 'p': 'M', 'b': 'L'}]]})
+    g.emit({'op': 'newp', 'out': b, 'name': g.name(), 'rows': 2, 'cols': 3, 'max': {'v': '50', 'p': 'M', 'b': 'L'}})
+    g.emit({'op': 'transfer', 'src': {'c': a}, 'dst': {'p': b, 'r': {'rect': [[0, 1], [0, 1, 2]]}}, 'q': {'v': '20', 'p': 'M', 'b': 'L'}, 'osrc': g.fresh(), 'odst': g.fresh()})
+    out.append(g)
     return out
 
 
